@@ -98,7 +98,7 @@ func soundedKeys(c *core.Ctx, sym string, extra []string) ([]int, *smfdec.File, 
 
 func checkC16(c *core.Ctx) {
 	c.Rule("built-ins exhaustively: all 46 lookup keys (23 names + 23 displays) played on 3 degrees in 3 keys and described from 3 roots, name vs display compared; every attribute of `info attr list` compared with the interval its English name denotes; `info attr list` = `gen attr -d 20` = chord/attribute.yml; " +
-		"user dictionaries: random inheritance forests (depth <= 6) over fresh attributes with random intervals, overriding and fresh names, split over 1..3 --chord/--attr files, played and compared with the parent-first transitive union; each inconsistency kind (dangling attribute, dangling extends, extends cycle of length 1..5, unnamed chord, unnamed attribute) injected with the broken chord used and unused; " +
+		"user dictionaries: random inheritance forests (depth <= 6) over fresh attributes with random intervals, overriding and fresh names, split over 1..3 --chord/--attr files, played and compared with the parent-first transitive union; each inconsistency kind (dangling attribute, dangling extends, extends cycle of length 1..5, a chord leading into a cycle it is not part of, unnamed chord, unnamed attribute) injected with the broken chord used and unused; " +
 		"non-trivial = forest with an inheritance chain >= 3 and a chord adding >= 2 attributes of its own, or a built-in lookup key checked against the conventional table; distinct by case")
 	c.Assume("theory.ChordTable (conventional meanings listed in the property)", "theory.AttributeInterval reads English interval names", "smfdec", "yaml.v3 as reader")
 
@@ -392,6 +392,15 @@ func genForest(r *rand.Rand, tag string) forest {
 		f.depth[uc.Name] = 1
 		f.chords = append(f.chords, uc)
 	}
+	// a fresh chord that takes over the display symbol of a built-in nothing extends: user
+	// files are read after the built-ins, so the symbol now means the user's chord
+	if r.Intn(3) == 0 {
+		a := f.attrs[r.Intn(len(f.attrs))]
+		uc := userChord{Name: "Zsus2" + tag, Display: "sus2", Attrs: []string{"Perfect1", a.Name}}
+		f.semis[uc.Name] = []int{0, f.sizes[a.Name]}
+		f.depth[uc.Name] = 1
+		f.chords = append(f.chords, uc)
+	}
 	return f
 }
 
@@ -487,7 +496,7 @@ func userForestCase(c *core.Ctx, i int, r *rand.Rand) {
 }
 
 func brokenDictCase(c *core.Ctx, i int, r *rand.Rand) {
-	kinds := []string{"dangling-attr", "dangling-extends", "cycle1", "cycle2", "cycle3", "cycle4", "cycle5", "unnamed-chord", "unnamed-attr"}
+	kinds := []string{"dangling-attr", "dangling-extends", "cycle1", "cycle2", "cycle3", "cycle4", "cycle5", "unnamed-chord", "unnamed-attr", "tail1", "tail2", "tail3"}
 	kind := kinds[i%len(kinds)]
 	used := (i/len(kinds))%2 == 0
 	f := genForest(r, "b")
@@ -503,6 +512,19 @@ func brokenDictCase(c *core.Ctx, i int, r *rand.Rand) {
 		broken.Attrs = []string{f.attrs[0].Name}
 	case "unnamed-attr":
 		f.attrs = append(f.attrs, userAttr{Name: "\x00", Degree: "3"})
+		broken.Attrs = []string{f.attrs[0].Name}
+	case "tail1", "tail2", "tail3":
+		// the broken chord is not part of the cycle, it only leads into one
+		n := int(kind[4] - '0')
+		first := "Zloop1"
+		for j := 1; j <= n; j++ {
+			next := fmt.Sprintf("Zloop%d", j+1)
+			if j == n {
+				next = first
+			}
+			f.chords = append(f.chords, userChord{Name: fmt.Sprintf("Zloop%d", j), Display: fmt.Sprintf("zloop%d", j), Extends: next, Attrs: []string{f.attrs[0].Name}})
+		}
+		broken.Extends = first
 		broken.Attrs = []string{f.attrs[0].Name}
 	default:
 		n := int(kind[5] - '0')
